@@ -38,7 +38,7 @@ extern MPT_INTERFACE(metatype) *mpt_meta_new(const MPT_STRUCT(value) *val)
 		return 0;
 	}
 	/* data too big for basic type */
-	if (len >= UINT8_MAX) {
+	if (_mpt_geninfo_size(len + 1) < 0) {
 		MPT_STRUCT(array) a = MPT_ARRAY_INIT;
 		MPT_STRUCT(buffer) *buf;
 		const MPT_STRUCT(type_traits) *traits;
@@ -53,8 +53,8 @@ extern MPT_INTERFACE(metatype) *mpt_meta_new(const MPT_STRUCT(value) *val)
 		if (!(buf = mpt_array_reserve(&a, reserve, traits))) {
 			return 0;
 		}
-		if (!mpt_buffer_set(buf, traits, len, text, 0)
-		 || ((reserve > len) && !mpt_buffer_set(buf, traits, 1, "", len))) {
+		if (!mpt_buffer_set(buf, traits, 0, text, len)
+		 || ((reserve > len) && !mpt_buffer_set(buf, traits, len, "", 1))) {
 			mpt_array_clone(&a, 0);
 			return 0;
 		}
